@@ -37,6 +37,7 @@ var knownSignatures = map[string]string{
 	"N04": "N04-integer-literal-string-index-to-dot",
 	"N05": "N05-octal-escape-above-177-raw-byte",
 	"N06": "N06-prefix-update-group-before-exponent",
+	"N07": "N07-grouped-numeric-literal-before-dot",
 }
 
 var reK08 = regexp.MustCompile(`\\u(005[cC]|\{0*5[cC]\})`)
@@ -181,7 +182,7 @@ func scanKnown(src string) []string {
 			if t.k == tStr && reK30.MatchString(body) {
 				found["K30"] = true
 			}
-			if t.k == tStr && len(t.s) == 2 {
+			if t.k == tStr && emptyStringValue(t.s) {
 				p, nx := at(i-1), at(i+1)
 				if isPunct(p, "!") || isPunct(nx, "?") || isPunct(p, "(") && isPunct(nx, ")") {
 					found["K13"] = true
@@ -212,6 +213,10 @@ func scanKnown(src string) []string {
 						found["N04"] = true
 					}
 				}
+			}
+			// N07: (1.0).a -> 1.a, (1n).a -> 1n..a
+			if isPunct(at(i-1), "(") && isPunct(at(i+1), ")") && (isPunct(at(i+2), ".") || isPunct(at(i+2), "?.")) && !isAllDigits(t.s) {
+				found["N07"] = true
 			}
 			s := strings.ReplaceAll(t.s, "_", "")
 			if strings.HasSuffix(s, "n") && len(s) > 2 && s[0] == '0' {
@@ -342,6 +347,38 @@ func scanKnown(src string) []string {
 				if isPunct(at(i+1), "(") {
 					found["K11"] = true
 				}
+				{
+					// only a plain expression statement `x op= simple` is safe
+					k := i - 1
+					for k >= 0 && (toks[k].k == tIdent && !jsKeywords[toks[k].s] || isPunct(toks[k], ".")) {
+						k--
+					}
+					p := at(k)
+					first := at(k + 1)
+					okPrev := k < 0 || isPunct(p, ";") || isPunct(p, "{") || isPunct(p, "}") || first.nl && !(p.k == tPunct && p.s != ")" && p.s != "]")
+					if !okPrev {
+						found["K11"] = true
+					}
+					depth := 0
+					for q := i + 1; q < n; q++ {
+						u := toks[q]
+						if u.k == tPunct && (u.s == "(" || u.s == "[" || u.s == "{") {
+							depth++
+						} else if u.k == tPunct && (u.s == ")" || u.s == "]" || u.s == "}") {
+							if depth == 0 {
+								if u.s != "}" {
+									found["K11"] = true
+								}
+								break
+							}
+							depth--
+						} else if depth == 0 && isPunct(u, ";") || depth == 0 && u.nl {
+							break
+						} else if depth == 0 && u.k == tPunct && u.s != "." && u.s != "?." {
+							found["K11"] = true
+						}
+					}
+				}
 				depth := 0
 				for k := i + 1; k < n; k++ {
 					u := toks[k]
@@ -424,10 +461,33 @@ func scanKnown(src string) []string {
 							}
 						}
 					}
-					// anything non-empty after the declaration?
+					// anything non-empty after the declaration(s)?
 					k := end
 					lone := true
 					for k < close {
+						if isWord(at(k), "let") || isWord(at(k), "const") {
+							// a following lexical declaration is merged into the first one
+							depth := 0
+							k2 := k + 1
+							for ; k2 < close; k2++ {
+								u := toks[k2]
+								if u.k == tPunct && (u.s == "(" || u.s == "[" || u.s == "{") || u.k == tTemplate && u.tmpl == 1 {
+									depth++
+								} else if u.k == tPunct && (u.s == ")" || u.s == "]" || u.s == "}") || u.k == tTemplate && u.tmpl == 3 {
+									depth--
+								} else if depth == 0 && isPunct(u, ";") {
+									k2++
+									break
+								} else if depth == 0 && u.nl && k2 > k+1 {
+									pt := toks[k2-1]
+									if !(pt.k == tPunct && pt.s != ")" && pt.s != "]" && pt.s != "}") && !(u.k == tPunct && u.s != "{" && u.s != "[" && u.s != "(") && !isWord(u, "in") && !isWord(u, "instanceof") {
+										break
+									}
+								}
+							}
+							k = k2
+							continue
+						}
 						ok, k2 := emptyStmt(k)
 						if !ok || k2 <= k {
 							lone = false
@@ -502,6 +562,29 @@ func scanKnown(src string) []string {
 		if !isParams {
 			continue
 		}
+		hasDefault := false
+		{
+			dd := 0
+			for k := i + 1; k < j; k++ {
+				u := toks[k]
+				if u.k == tPunct && (u.s == "(" || u.s == "[" || u.s == "{") {
+					dd++
+				} else if u.k == tPunct && (u.s == ")" || u.s == "]" || u.s == "}") {
+					dd--
+				} else if dd == 0 && isPunct(u, "=") {
+					hasDefault = true
+				}
+			}
+		}
+		if hasDefault && isPunct(nx, "{") {
+			// removing a defaulted parameter turns the unmapped arguments object into a mapped one
+			be := matchClose(toks, j+1)
+			for k := j + 2; k < be && k < n; k++ {
+				if isWord(toks[k], "arguments") {
+					found["N02"] = true
+				}
+			}
+		}
 		depth := 0
 		inDefault := false
 		for k := i + 1; k < j; k++ {
@@ -565,6 +648,29 @@ func nonCanonicalNumber(s string) bool {
 		return len(s) > 15
 	}
 	return true // any fraction/exponent spelling is treated as suspicious
+}
+
+// emptyStringValue: "" '' or only line continuations.
+func emptyStringValue(lit string) bool {
+	if len(lit) < 2 {
+		return false
+	}
+	b := lit[1 : len(lit)-1]
+	b = strings.ReplaceAll(b, "\\\r\n", "")
+	b = strings.ReplaceAll(b, "\\\n", "")
+	b = strings.ReplaceAll(b, "\\\r", "")
+	b = strings.ReplaceAll(b, "\\\u2028", "")
+	b = strings.ReplaceAll(b, "\\\u2029", "")
+	return b == ""
+}
+
+func isAllDigits(s string) bool {
+	for i := 0; i < len(s); i++ {
+		if !isDigit(s[i]) {
+			return false
+		}
+	}
+	return s != ""
 }
 
 func hasID(ids []string, id string) bool {
